@@ -37,6 +37,7 @@ var variantFamilies = []variant{
 	{family: "dupsingular", dupSingular: true},
 	{family: "splitmsg", splitMsg: true},
 	{family: "splitmsg-empty", splitMsg: true, splitEmpty: true},
+	{family: "splitmsg+unknown", splitMsg: true, unknown: true},
 	{family: "oneofmulti", oneofMulti: true},
 	{family: "mapswap", mapShape: 1},
 	{family: "mapomitkey", mapShape: 2},
